@@ -51,3 +51,21 @@
         rb.reset();
         assert!(rb.begin == 0 && rb.end == 0);
     }
+
+    // @harness ids=C06,C01 tier=quick kind=proof units=link::reader::Reader::reset,link::reader::Reader::new timeout=300 note="Reader::reset (called between sessions and by Layer::reset) empties the read buffer AND returns the parser to FindSync1 from any state: bytes or a partial frame of an old session never leak into the next one"
+    #[kani::proof]
+    fn vk_c06_reader_reset() {
+        use crate::link::parser::verif_kani_c06_parser as pv;
+        let mode = if kani::any() { LinkErrorMode::Close } else { LinkErrorMode::Discard };
+        let modes = if kani::any() { LinkModes::stream(mode) } else { LinkModes::datagram(mode) };
+        let mut r = Reader::new(modes, 249);
+        assert!(r.buffer.begin == 0 && r.buffer.end == 0 && r.buffer.buffer.len() == 293);
+        let tag = pv::set_state_any(&mut r.parser);
+        r.buffer.begin = kani::any();
+        r.buffer.end = kani::any();
+        kani::assume(r.buffer.begin <= r.buffer.end && r.buffer.end <= 293);
+        r.reset();
+        assert!(pv::state_tag_of(&r.parser) == 0);
+        assert!(r.buffer.begin == 0 && r.buffer.end == 0 && r.buffer.num_bytes_unread() == 0);
+        kani::cover!(tag == 2);
+    }
